@@ -487,3 +487,12 @@ def c16_9(ctx, r):
             r.check(not raising, f"{fld} runs through run_command (exit code is logged)", key_of(f2, f"HOOK({fld}) raises on failure"), s.loc,
                     f"`{ctx.src(s.node)[:60]}` raises when the {fld} exits non-zero: " + ("the exception leaves _handle_completion before cluster.mark_complete(), so the flag is never set and every later try-submit-jobs runs the teardown again"
                     if fld == "teardown_command" else "the exception leaves run_jobs before its status is returned: the node never triggers try-submit-jobs"), "the teardown command runs exactly once each time the submission completes ... before the completion flag is set, whether jobs passed or failed")
+
+
+@rule(P, "C16.10", "T8", "the completion path reaches the teardown also when jobs are missing: what is written just before it is well-formed", min_obligations=4)
+def c16_10(ctx, r):
+    """Teardown follows write_results_summary() in _handle_completion.  With missing jobs that writer json-dumps the missing list; if the list is
+    not a list (an unsorted set) the dump raises and the teardown command never runs - on every later round as well."""
+    from .c03 import missing_flow
+
+    missing_flow(ctx, r, "C16.10")
